@@ -133,6 +133,22 @@ def gen_jobs(ctx):
             base = base[: (200 if quick else 1500)]
         inputs = sorted(set(variants[i % len(variants)](s) for i, s in enumerate(base)) | {"", " ", "\n"})
         jobs.append((name, text, inputs))
+    for i in range(12 if quick else 120):
+        for gen in (gramgen.ctx_nullable_grammar, gramgen.lr1_twin_grammar):
+            prods, text = gen(rng)
+            alpha = gramgen.alphabet_of(text)
+            base = set()
+            for _ in range(30):
+                sen = gramgen.random_sentence(rng, prods, max_depth=6, max_len=8)
+                if sen is None:
+                    continue
+                base.add(sen)
+                k = rng.randrange(len(sen)) if sen else 0
+                if sen:
+                    base.add(sen[:k] + rng.choice(alpha) + sen[k + 1:])     # wrong token, valid elsewhere
+                    base.add(sen[:k] + sen[k + 1:])                           # token missing
+            inputs = sorted(set(variants[(j % 4) + 1](s_) for j, s_ in enumerate(sorted(base))))
+            jobs.append(("%s%d" % (gen.__name__[:4], i), text, inputs))
     n = 80 if quick else 1000
     for i in range(n):
         r = gramgen.random_grammar(rng, max_nt=3, max_alts=3, max_rhs=3, p_empty=rng.choice([0, 0.2]))
